@@ -5,6 +5,7 @@ static void writePan(size_t chip, uint32_t index, uint32_t value);
 #include "extracted.c"
 
 uint8_t in_op_level[4]; uint8_t in_alg;
+size_t in_c; unsigned long in_v, in_cv, in_ce; uint8_t in_br, in_mv; int in_model, in_scale; unsigned in_nchips;   /* named for the replay file */
 #define REACH(cond, name) __CPROVER_assert(!(cond), "REACH " name)
 uint8_t nondet_u8(void); size_t nondet_size(void); unsigned long nondet_ulong(void);
 
@@ -13,6 +14,9 @@ void h_touchNote(void)
     size_t c = nondet_size(); uint_fast32_t v = nondet_ulong(), cv = nondet_ulong(), ce = nondet_ulong(); uint8_t br = nondet_u8();
     for(int i = 0; i < 4; i++) in_op_level[i] = nondet_u8();
     in_alg = nondet_u8();
+    g_synth.m_insCache = g_insCache_storage; g_synth.m_regLFOSens = g_regLFOSens_storage;   /* assigned, and stated again as preconditions */
+    in_c = c; in_v = v; in_cv = cv; in_ce = ce; in_br = br; in_mv = g_synth.m_masterVolume; in_model = g_synth.m_volumeScale;
+    in_scale = g_synth.m_scaleModulators; in_nchips = g_synth.m_numChips;
     touchNote(c, v, cv, ce, br);
     REACH(g_synth.m_volumeScale == VOLUME_Generic && g_tap[3].val < 127, "generic audible");
     REACH(g_synth.m_volumeScale == VOLUME_NATIVE && g_tap[3].val < 127, "native audible");
